@@ -4,8 +4,8 @@
    IntoIter::drop, clone/extend/resize under construction) by the correspondence run with a panic
    injected at callback invocations and destructors. *)
 From Coq Require Import ZArith List Bool Lia.
-From MV Require Import Ast Eval Scalar Machine.
-From MV.Proofs Require Import Arith Logic Prim View OpsLocal Guards Drops.
+From MV Require Import Ast Eval Scalar Machine Model Policy.
+From MV.Proofs Require Import Arith Logic Prim View OpsLocal Guards Drops CapHistory Core.
 Import ListNotations.
 Open Scope Z_scope.
 
@@ -35,3 +35,30 @@ Proof. use truncate_spec. Qed.
 
 Print Assumptions C04_destructor_panics_do_not_duplicate.
 Print Assumptions C04_truncate_is_panic_safe.
+
+(* ALL histories over the core alphabet {push, pop, remove, truncate/clear, retain with ANY predicate
+   script, reserve, reserve_exact, shrink_to_fit, shrink_to}, with ANY arguments and ANY set of
+   panicking destructors, every panic caught between operations, from any state in which the vector
+   owns its elements (in particular the never-allocated vector): the machine never reaches undefined
+   behaviour (double drop, dead / uninitialised element exposed, access outside a live block, wrong
+   layout quoted to the allocator), never hangs, and after every operation every element the vector
+   exposes is initialised, live and exposed once.  Growth policy: the one regenerated from source. *)
+Theorem C04_all_core_histories :
+  forall cfg, cfg_ok cfg -> needs_drop cfg = true ->
+  forall v os s, vinv cfg s v -> Forall coreop_ok os ->
+  post (run_coreops cfg (ncap_of cfg) v os s) (fun _ s' => vinv cfg s' v) (fun _ => False).
+Proof. intros cfg Hc Hd. exact (core_history_safe cfg (ncap_of cfg) Hc (ncap_policy cfg) Hd). Qed.
+
+Example C04_history_hypotheses_satisfiable :
+  let cfg := {| esz := 24; ealign := 8; needs_drop := true; release := true |} in
+  let s := {| heap := []; vecs := [Some Sentinel]; iters := []; ledger := fun _ => Fresh; payload := fun _ => 0;
+              next_elem := 0; drop_panics := [1; 3]; clone_panics := []; alloc_fail := None;
+              alloc_limit := 1073741824; events := [] |} in
+  cfg_ok cfg /\ vinv cfg s 0 /\
+  Forall coreop_ok [KPush 5; KPush 6; KRetain [84; 70; 80]; KCap CShrinkToFit; KPop; KTruncate 0; KRemove 3].
+Proof.
+  split; [repeat split; reflexivity|]. split; [left; reflexivity|].
+  repeat constructor; simpl; lia.
+Qed.
+
+Print Assumptions C04_all_core_histories.
